@@ -25,6 +25,10 @@ EXPLANATION = (
     "(lower, upper) length - its repetition counts are affine in the lengths, two points per region pin them - against "
     "'all integers whose text has between lower and upper characters'; (O2.9) Choice and Constant rule automata on "
     "every abstract token sequence up to a bound."
+    " Added in rounds 6 and 7: (O2.1) a length that is open on one side still selects the range derived from the"
+    " length. (O2.9) the text of a rule token: a quoted token loses exactly its two enclosing quotes. (O2.10) the"
+    " Integer / Decimal value hooks on concrete cells through the real int() / Decimal(): digit grouping with"
+    " underscores is no number in data."
 )
 ASSUMPTIONS = ["int(), decimal.Decimal(), time.strptime, re and fnmatch implement their documented semantics"]
 
